@@ -498,7 +498,25 @@ Proof.
   eapply F2_impl; [|exact H]. intros t P HR Hb. apply inv_bound; [exact Hb|apply HR; exact Hb].
 Qed.
 
+(* "consequently a lookup never needs more than that many comparisons plus one":
+   comparisons <= (log_{2000/(1000+b)} P + 1) + 1, without real numbers *)
+Theorem history_lookup (ops : list (op T)) :
+  Forall2 (fun t P => 0 <= beta t < 1000 -> forall k,
+             let c := snd (get_count cmp k (root t)) in
+             c <= 2 \/ 2000 ^ (c - 2) <= P * (1000 + beta t) ^ (c - 2))
+          (fst (run_with_peak cmp limit ops)) (snd (run_with_peak cmp limit ops)).
+Proof.
+  pose proof (history_bound ops) as H.
+  eapply F2_impl; [|exact H]. intros t P HB Hb k. cbn zeta.
+  destruct (HB Hb) as [_ [_ Hh]].
+  pose proof (get_count_cost cmp k (root t)) as Hc.
+  destruct (Z_le_gt_dec (snd (get_count cmp k (root t))) 2) as [Hle|Hgt]; [left; exact Hle|right].
+  destruct Hh as [Hh|Hh]; [lia|].
+  apply (Pk_down (beta t) P _ (height (root t) - 1)); [lia|lia|exact Hh].
+Qed.
+
 End Ops.
 End Proofs.
 
 Arguments history_bound {T} cmp limit _ _ ops.
+Arguments history_lookup {T} cmp limit _ _ ops.
